@@ -26,6 +26,9 @@ def run_histories(sc, tier, verdict):
     # (one history of several hundred connections also in the quick tier: a leak of one slot / descriptor per bad connection needs that many)
     for n, length in ([(2, 12), (4, 20), (1, 6), (2, 300)] if tier == "quick" else [(n, l) for n in (1, 2, 4, 8) for l in (10, 40, 150)] + [(4, 600), (16, 400)]):
         extra.append({"n": n, "hist": [rng.choice(["valid", "bad", "internal", "close", "bad", "close"]) for _ in range(length)]})
+    # the same kinds of history against a server on the IPv6 loopback (peer addresses print and parse differently there)
+    extra.append({"n": 2, "hist": ["valid", "bad", "internal", "close", "valid", "bad", "close", "valid"], "ip6": True})
+    extra.append({"n": 1, "hist": ["valid", "valid"], "ip6": True})
     with open(cases, "a") as f:
         for e in extra:
             f.write(json.dumps(e) + "\n")
@@ -60,3 +63,37 @@ def run_histories(sc, tier, verdict):
             sig = "wire:%s:%s" % (",".join(sorted(f["props"])), f.get("flavour", f.get("ev")))
             verdict.reject(sig, {"leg": "wire", "n": n, "history": events[start].get("history"), "event": events[f["i"] - 1], "clauses": sorted(f["props"])})
     return {"histories": histories, "connections": connections, "sample": sample}
+
+
+def run_fixed_histories(sc, hist_cases, verdict, as_prop):
+    """A fixed list of wire histories judged by Trace_Server; unanswered connections are reported under `as_prop`
+    (C04 uses this for the address-family dimension: every connection is answered also on the IPv6 loopback)."""
+    vlib.build_rws_binary()
+    cases = sc.path("fixed_hist_cases.ndjson")
+    vlib.write_ndjson(cases, hist_cases)
+    trace = sc.path("fixed_hist_trace.ndjson")
+    vlib.run_harness(["wire-history", "--cases", cases, "--out", trace, "--scratch", sc.path("wire_fixed"), "--bin", vlib.RWS_BIN], timeout=1200)
+    by_n, cur = {}, None
+    with open(trace) as fh:
+        for line in fh:
+            e = json.loads(line)
+            if e["ev"] == "Start":
+                cur = e["n"]
+            by_n.setdefault(cur, []).append(line)
+    conns = 0
+    for n, lines in sorted(by_n.items()):
+        name = "TraceServerFixed_n%d" % n
+        d = instance(sc, name, "Trace_Server", n, 1000)
+        tpath = os.path.join(d, "trace.ndjson")
+        open(tpath, "w").writelines(lines)
+        tv = vlib.validate_trace(name, tpath, spec_dir=d, heap="2g")
+        events = [json.loads(x) for x in lines]
+        conns += sum(1 for e in events if e["ev"] in ("Conn", "Probe"))
+        for f in tv.fails:
+            if any(p.startswith("TOOL.") for p in f["props"]):
+                raise vlib.ToolError("Trace_Server model error: %s" % json.dumps(f)[:800])
+            start = max(i for i, e in enumerate(events[:f["i"]]) if e["ev"] == "Start")
+            clauses = sorted(p.replace("C06.", as_prop + ".wire_") for p in f["props"])
+            verdict.reject("%s:%s" % (",".join(clauses), f.get("flavour", f.get("ev"))),
+                           {"leg": "wire", "n": n, "history": events[start].get("history"), "event": events[f["i"] - 1], "clauses": clauses})
+    return conns
